@@ -46,6 +46,9 @@ def check(run, M, tier):
     f = M.func("sigpy.mri.samp.poisson")
     g = M.func("sigpy.mri.samp._poisson")
     run.level = "proof"
+    run.rule("B5", "no function of sigpy.mri.samp is memoised or keeps results in a module-level container")
+    from ..common import check_no_memoisation
+    check_no_memoisation(run, M, "B5", ['sigpy.mri.samp'], 'the same mask array is returned to every caller with equal arguments, so a caller that edits its mask changes what later calls return (the mask no longer depends only on the arguments and seed)')
     # ---- B1
     summ = {}
     bd = BinDomain(M, f, summ)
